@@ -13,7 +13,7 @@ CONSTANTS TraceFile,
           Diagnose    \* TRUE: no GiveUp, print the position reached (used to locate the rejected event)
 VARIABLES l, conn, cfg,
           store,   \* model keyspaces: database id -> RedisModel keyspace (scenarios with model = TRUE)
-          conf     \* parameters stored with CONFIG SET
+          conf     \* [p: parameters stored with CONFIG SET, scan: the SCAN cursor iteration in progress]
 
 RM == INSTANCE RedisModel
 Trace == ndJsonDeserialize(TraceFile)
@@ -21,10 +21,12 @@ MaxConn == 8
 Fresh == [c \in 0..(MaxConn - 1) |-> Idle]
 Cfg0 == [requirepass |-> FALSE, pw |-> <<>>, authdouble |-> FALSE, custom |-> {}, tracer |-> FALSE, rec |-> TRUE, model |-> FALSE, mconns |-> {}]
 NoStore == [d \in {} |-> 0]
+NoScan == [on |-> FALSE, pat |-> <<>>, seen |-> {}, cur |-> 0]
+Conf0 == [p |-> NoStore, scan |-> NoScan]
 KS(db) == IF db \in DOMAIN store THEN store[db] ELSE RM!EmptyKS
 PutF(f, k, v) == [x \in DOMAIN f \cup {k} |-> IF x = k THEN v ELSE f[x]]
 
-Init == l = 1 /\ conn = Fresh /\ cfg = Cfg0 /\ store = NoStore /\ conf = NoStore
+Init == l = 1 /\ conn = Fresh /\ cfg = Cfg0 /\ store = NoStore /\ conf = Conf0
 
 Upd(c, n) == ~Bad(n) /\ conn' = [conn EXCEPT ![c] = n] /\ UNCHANGED <<cfg, store, conf>>
 UpdC(c, n) == ~Bad(n) /\ conn' = [conn EXCEPT ![c] = n] /\ UNCHANGED cfg
@@ -36,6 +38,28 @@ ConfGetOK(ts, v, cf) == /\ v.t = "arr" /\ Len(v.e) = 2 * Len(ts)
                         /\ \A i \in 1..Len(ts) : /\ v.e[2 * i - 1] = Bulk(ts[i].b)
                                                  /\ (ts[i].b \in DOMAIN cf => v.e[2 * i] = Bulk(cf[ts[i].b]))
 
+\* SCAN cursor [MATCH p] [COUNT n]: every call returns only existing keys that match; a full iteration - cursor 0, then
+\* each time the cursor the server handed out, until it hands out 0 - has returned every matching key that was there
+\* throughout (Redis' SCAN guarantee; how many keys a call returns and what the cursor values are is the server's choice).
+\* That the iteration ends at all is checked by the driver, which gives up after a bound ("scanstuck": no rule allows it).
+ScanStep(r, v, aux, ks) ==
+  LET args == r.args
+      mi == {i \in 2..(Len(args) - 1) : args[i].k = "word" /\ args[i].w = "MATCH"}
+      pat == IF mi = {} THEN <<42>> ELSE args[(CHOOSE i \in mi : TRUE) + 1].b
+      typed == \E i \in 2..Len(args) : args[i].k = "word" /\ args[i].w = "TYPE"
+      sel == {k \in DOMAIN ks : Match(pat, k)}
+      s0 == aux.conf.scan IN
+  IF typed \/ args[1].big # "" THEN {aux}
+  ELSE IF ~(v.t = "arr" /\ Len(v.e) = 2 /\ v.e[1].t = "bulk" /\ CanonNat(v.e[1].p) /\ Len(v.e[1].p) <= 9 /\ RM!IsBulkArr(v.e[2])) THEN {}
+  ELSE LET got == {v.e[2].e[i].p : i \in 1..Len(v.e[2].e)}
+           nxt == ParseNat(v.e[1].p)
+           cont == s0.on /\ args[1].n # 0 /\ args[1].n = s0.cur /\ s0.pat = pat
+           seen == (IF cont THEN s0.seen ELSE {}) \cup got IN
+       IF ~(got \subseteq sel) THEN {}
+       ELSE IF ~(args[1].n = 0 \/ cont) THEN {[aux EXCEPT !.conf.scan = NoScan]}      \* a cursor this iteration did not hand out
+       ELSE IF nxt = 0 THEN (IF sel \subseteq seen THEN {[aux EXCEPT !.conf.scan = NoScan]} ELSE {})
+       ELSE {[aux EXCEPT !.conf.scan = [on |-> TRUE, pat |-> pat, seen |-> seen, cur |-> nxt]]}
+
 \* aux = [store, conf] threaded through the replies of one write; the result is the set of aux values the model allows
 \* after reply v to the oldest unanswered request of cs ({} = the reply is not the one Redis defines)
 ModelStep(cs, v, aux) ==
@@ -44,14 +68,17 @@ ModelStep(cs, v, aux) ==
       ks == IF cs.db \in DOMAIN aux.store THEN aux.store[cs.db] ELSE RM!EmptyKS IN
   IF ~r.frame /\ r.name = "CONFIG" /\ cs.auth /\ Len(r.args) >= 2 /\ r.args[1].k = "word" /\ ~AnyNull(r.args) THEN
     (IF r.args[1].w = "SET" /\ Len(r.args) % 2 = 1
-       THEN (IF v = OKV THEN {[aux EXCEPT !.conf = ConfSet(aux.conf, Tail(r.args), 1)]} ELSE {})
-     ELSE IF r.args[1].w = "GET" THEN (IF ConfGetOK(Tail(r.args), v, aux.conf) THEN {aux} ELSE {})
+       THEN (IF v = OKV THEN {[aux EXCEPT !.conf.p = ConfSet(aux.conf.p, Tail(r.args), 1)]} ELSE {})
+     ELSE IF r.args[1].w = "GET" THEN (IF ConfGetOK(Tail(r.args), v, aux.conf.p) THEN {aux} ELSE {})
      ELSE {aux})
   ELSE IF r.frame \/ x.kind \notin {"calls", "derived"} THEN {aux}
+  ELSE IF r.name = "SCAN" THEN ScanStep(r, v, aux, ks)
   ELSE LET m == RM!Exec(ks, r.name, r.args) IN
        IF m.cmp = "any" THEN (IF PrintT(<<"UNMODELLED", r.name>>) THEN {aux} ELSE {aux})
        ELSE IF RM!IsErrRes(m) THEN (IF v.t = "err" THEN {aux} ELSE {})
-       ELSE IF RM!ReplyMatches(m, v) THEN {[aux EXCEPT !.store = PutF(aux.store, cs.db, m.ks)]} ELSE {}
+       ELSE IF RM!ReplyMatches(m, v)
+            THEN {[aux EXCEPT !.store = PutF(aux.store, cs.db, m.ks), !.conf.scan = IF m.ks = ks THEN @ ELSE NoScan]}   \* a write ends the iteration's guarantee
+            ELSE {}
 
 \* a write: the replies it completes, in order.  P is a set of [cs, aux] pairs (several only where the trace leaves open
 \* which handler calls belong to which request)
@@ -87,7 +114,7 @@ Handle(e) ==
          /\ cfg' = [requirepass |-> e.requirepass, pw |-> e.pw, authdouble |-> e.authdouble,
                     custom |-> IF e.customexec THEN {"MYCMD"} ELSE {}, tracer |-> e.tracer, rec |-> e.handler = "rec", model |-> e.model,
                     mconns |-> {e.modelconns[i] : i \in 1..Len(e.modelconns)}]    \* {} = every connection is judged against the model
-         /\ conn' = Fresh /\ store' = NoStore /\ conf' = NoStore
+         /\ conn' = Fresh /\ store' = NoStore /\ conf' = Conf0
     [] e.ev = "open"      -> ~conn[e.c].opened /\ conn' = [conn EXCEPT ![e.c] = NewConn(cfg.requirepass)] /\ UNCHANGED <<cfg, store, conf>>
     [] e.ev = "reqs"      -> Upd(e.c, OnReqs(conn[e.c], e.reqs, e.ends))
     [] e.ev = "send"      -> Upd(e.c, OnSend(conn[e.c], e.upto, e.complete))
@@ -119,11 +146,11 @@ Step == /\ l <= Len(Trace) /\ Trace[l].ev # "end"
 End == /\ l <= Len(Trace) /\ Trace[l].ev = "end"
        /\ EndOK
        /\ PrintT(<<"OK", Trace[l].sc>>)
-       /\ l' = l + 1 /\ conn' = Fresh /\ cfg' = Cfg0 /\ store' = NoStore /\ conf' = NoStore
+       /\ l' = l + 1 /\ conn' = Fresh /\ cfg' = Cfg0 /\ store' = NoStore /\ conf' = Conf0
 
 GiveUp == /\ ~Diagnose
           /\ l <= Len(Trace)
-          /\ l' = Trace[l].end + 1 /\ conn' = Fresh /\ cfg' = Cfg0 /\ store' = NoStore /\ conf' = NoStore
+          /\ l' = Trace[l].end + 1 /\ conn' = Fresh /\ cfg' = Cfg0 /\ store' = NoStore /\ conf' = Conf0
 
 DiagAt == Diagnose => PrintT(<<"AT", l>>)
 
